@@ -72,6 +72,12 @@ theorem write_layout (align pos itemsize : Nat) (data : Bytes) (ha : 0 < align) 
 
 /-! ## chunked read -/
 
+/-! `Tiles l i j` (defined in `JoblibProofs/Lemmas/ArrayFormat.lean`) says that `l` is a sequence of consecutive
+`(start, length)` pieces going from item `i` to item `j`: `Tiles [] i j ↔ i = j` and
+`Tiles ((s, c) :: r) i j ↔ s = i ∧ Tiles r (i + c) j`. -/
+example : Tiles [(0, 4), (4, 4), (8, 2)] 0 10 := by simp [Tiles]
+example : ¬ Tiles [(0, 4), (5, 4)] 0 9 := by simp [Tiles]
+
 /-- **chunked_read_covers_exactly.** For every `count`, `itemsize ≥ 1` and buffer size, the
 `for i in range(0, count, max_read_count)` loop reads consecutive pieces that start at item 0 and end at item
 `count` — no item twice, none skipped, none beyond — each of 1…`max_read_count` items, in
@@ -359,6 +365,59 @@ theorem total_buffer_len_floor_counterexample :
     let r := reduceMemmapBacked a m 0 false false false
     (byteBounds a).2 - (byteBounds a).1 = 4100 ∧ mappedBytes r 8 = some 4096
     ∧ originalElemOffset a m 0 [341] + 8 = 4100 := by
+  decide
+
+/-! ## The candidate repair (fixes/F24-F26-memmap-view-reduction.diff) satisfies the full statements -/
+
+/-- With `order` taken from the view and the position of element 0 computed from the negative strides, the
+rebuilt STRIDED view is faithful for EVERY stride vector (negative strides included). -/
+theorem repaired_strided_faithful (a m : Arr) (m_offset : Nat) (idx : List Nat)
+    (hm : ∀ s ∈ m.strides, 0 ≤ s) :
+    rebuiltElemOffsetRepaired (reduceMemmapBackedRepaired a m m_offset false false) a.itemsize idx
+      = originalElemOffset a m m_offset idx := by
+  have h1 := lowAdj_nonneg_strides m.shape m.strides hm
+  simp only [reduceMemmapBackedRepaired, Bool.or_self, Bool.false_eq_true, if_false,
+    rebuiltElemOffsetRepaired, originalElemOffset, byteBounds, firstElem, h1]
+  omega
+
+/-- … the rebuilt CONTIGUOUS view is faithful whenever the view's strides are those of its own order — no
+condition on the backing memmap's order any more. -/
+theorem repaired_contiguous_faithful (a m : Arr) (m_offset : Nat) (a_c a_f : Bool) (idx : List Nat)
+    (hm : ∀ s ∈ m.strides, 0 ≤ s) (hcontig : (a_f || a_c) = true)
+    (hown : a.strides = (if a_f && !a_c then fStrides a.shape a.itemsize else cStrides a.shape a.itemsize)) :
+    rebuiltElemOffsetRepaired (reduceMemmapBackedRepaired a m m_offset a_c a_f) a.itemsize idx
+      = originalElemOffset a m m_offset idx := by
+  have h1 : (byteBounds m).1 = m.ptr := by
+    simp [byteBounds, lowAdj_nonneg_strides m.shape m.strides hm]
+  have hnn : ∀ s ∈ a.strides, 0 ≤ s := by
+    rw [hown]
+    cases (a_f && !a_c)
+    · exact cStrides_nonneg _ _
+    · exact fStridesAux_nonneg _ _
+  have h2 : (byteBounds a).1 = a.ptr := by
+    simp [byteBounds, lowAdj_nonneg_strides a.shape a.strides hnn]
+  simp only [reduceMemmapBackedRepaired, hcontig, if_true, rebuiltElemOffsetRepaired, originalElemOffset, h1, h2]
+  cases hord : (a_f && !a_c)
+  · simp only [hord, Bool.false_eq_true, if_false] at hown ⊢
+    rw [hown]; omega
+  · simp only [hord, if_true] at hown ⊢
+    rw [hown]; omega
+
+/-- … and the byte buffer it maps is exactly the extent `[a_start, a_end)` of the view — nothing floored. -/
+theorem repaired_buffer_is_the_extent (a : Arr) :
+    repairedMappedBytes a.shape a.strides a.itemsize = (byteBounds a).2 - (byteBounds a).1 := by
+  simp only [repairedMappedBytes, firstElem, byteBounds]
+  omega
+
+/-- The three witnesses above are repaired. -/
+theorem repaired_witnesses :
+    (let m : Arr := ⟨1000, [8], [8], 8⟩
+     let a : Arr := ⟨1056, [8], [-8], 8⟩
+     rebuiltElemOffsetRepaired (reduceMemmapBackedRepaired a m 0 false false) 8 [1] = originalElemOffset a m 0 [1])
+    ∧ (let m : Arr := ⟨1000, [2, 3], [24, 8], 8⟩
+       let a : Arr := ⟨1000, [3, 2], [8, 24], 8⟩
+       rebuiltElemOffsetRepaired (reduceMemmapBackedRepaired a m 0 false true) 8 [0, 1] = originalElemOffset a m 0 [0, 1])
+    ∧ repairedMappedBytes [342] [12] 8 = 4100 := by
   decide
 
 /-! ## Non-vacuity -/
